@@ -3,6 +3,7 @@
 #include <algorithm>
 #include <functional>
 #include <cstdlib>
+#include <cerrno>
 
 namespace mdl {
 
@@ -505,7 +506,7 @@ std::string desc_to_timbuk(const Desc& d, bool parens) {
 }
 static bool state_num(const std::string& s, const std::string& prefix, long& out) {
 	if (s.compare(0, prefix.size(), prefix) != 0 || s.size() == prefix.size()) return false;
-	char* e = nullptr; out = strtol(s.c_str() + prefix.size(), &e, 10); return *e == 0;
+	char* e = nullptr; errno = 0; out = strtol(s.c_str() + prefix.size(), &e, 10); return *e == 0 && errno == 0 && out >= 0;
 }
 bool desc_to_ta(const Desc& d, const std::string& prefix, TA& out) {
 	out = TA(); long v;
